@@ -97,9 +97,11 @@ func (s *Sched) RecordG(e Event) {
 // Go starts f as a harness-owned goroutine that the scheduler tracks as running until it parks, blocks or returns.
 func (s *Sched) Go(what string, f func()) {
 	started := make(chan int64)
+	registered := make(chan struct{})
 	go func() {
 		gid := Goid()
 		started <- gid
+		<-registered // not before the scheduler knows the goroutine: its first arrival must find it registered as running
 		f()
 		s.arrive <- &Arrival{Gid: gid, Point: "#done"}
 	}()
@@ -107,6 +109,7 @@ func (s *Sched) Go(what string, f func()) {
 	s.mu.Lock()
 	s.running[gid] = what
 	s.mu.Unlock()
+	close(registered)
 }
 
 func (s *Sched) accept(a *Arrival) {
